@@ -5,9 +5,11 @@ import (
 	"fmt"
 	"go/ast"
 	"go/types"
+	"net/url"
 	"reflect"
 	"sort"
 	"strconv"
+	"strings"
 
 	"github.com/octohelm/gengo/pkg/namer"
 	gengotypes "github.com/octohelm/gengo/pkg/types"
@@ -42,7 +44,7 @@ func (d *Dumper) TypesTypeLit(tpe types.Type) string {
 
 func (d *Dumper) TypeLit(tpe typesutil.Type) string {
 	if tpe.PkgPath() != "" {
-		return d.Name(gengotypes.Ref(tpe.PkgPath(), tpe.Name()))
+		return d.Name(gengotypes.Ref(tpe.PkgPath(), unescapeTypeName(tpe.Name())))
 	}
 
 	switch tpe.Kind() {
@@ -87,6 +89,18 @@ func (d *Dumper) TypeLit(tpe typesutil.Type) string {
 	default:
 		return tpe.String()
 	}
+}
+
+// unescapeTypeName undoes the escaping reflect applies to import paths inside the name of an instantiated
+// generic type (a dot in the last path element is spelled %2e: List[gopkg.in/yaml%2ev3.Node]).
+func unescapeTypeName(name string) string {
+	if !strings.Contains(name, "%") {
+		return name
+	}
+	if s, err := url.PathUnescape(name); err == nil {
+		return s
+	}
+	return name
 }
 
 type ValueLitOpt struct {
